@@ -516,3 +516,69 @@ def _ordered(fb, site_bb, s_e, e_e):
     if bad:
         return False, "end can be " + " / ".join(bad) + f", unrelated to start = {_short(s_e)[:50]}"
     return True, "every alternative of end is start + n, or a length that start does not exceed"
+
+
+# ---------------------------------------------------------------------------------------------
+# R-CHAR-UNITS (C20, C15): an exact size test that guards char-wise access counts chars, not bytes
+
+def rule_char_units(cx, tier):
+    r = RuleResult("R-CHAR-UNITS",
+                   "where a string's size is tested for equality with a non-zero constant and the guarded code then reads "
+                   "the same string char by char (`chars()`, `char_indices()`, `graphemes()`), the size is a char / "
+                   "grapheme count: `len()` counts bytes, so `len() == 1` rejects every single non-ASCII character")
+    from .narrow import Sym, guards, leaves_of
+    import re
+    CHARWISE = ("str::chars", "str::char_indices", "UnicodeSegmentation::graphemes", "str::graphemes")
+    n_count = 0
+    n_sites = 0
+    for fn in cx.F.fns.values():
+        if fn.derived or not fn.crate.uname.startswith("koto"):
+            continue
+        calls = fn.calls()
+        charwise = [c for c in calls if c.short in CHARWISE or (c.short or "").endswith("::graphemes")]
+        if not charwise:
+            continue
+        sym = Sym(cx, fn)
+        cfg = cx.cfg(fn)
+        for (gb, dest, opn, le, re_, cty) in guards(cx, fn, sym):
+            if opn not in ("Eq", "Ne"):
+                continue
+            for a, b in ((le, re_), (re_, le)):
+                if b[0] != "K" or not isinstance(b[1], int) or b[1] < 1:
+                    continue
+                for leaf in leaves_of(a):
+                    m = re.match(r"(len|count)\((.*)\)$", leaf)
+                    if not m:
+                        continue
+                    unit, what = m.group(1), m.group(2)
+                    inner = re.match(r"(chars|graphemes|char_indices)\((.*)\)$", what)
+                    subject = inner.group(2) if (unit == "count" and inner) else (what if unit == "len" else None)
+                    if subject is None:
+                        continue
+                    # char-wise reads of the same string in code the test dominates
+                    used = []
+                    for c in charwise:
+                        p = op_place(c.args[0]) if c.args else None
+                        if p is None:
+                            continue
+                        if sym.canon(p[0], []).split(".")[0] != subject.split(".")[0] and sym.canon(p[0], []) != subject:
+                            continue
+                        if c.bb != gb and cfg.dominates(gb, c.bb) and c.bb in cfg.reachable_after(gb):
+                            used.append(c)
+                    if not used:
+                        continue
+                    # the string must be text (a byte length of a str / String / KString)
+                    n_sites += 1
+                    r.instances += 1
+                    r.nontrivial += 1
+                    r.sample({"fn": fn.qual, "test": f"{leaf} {opn} {b[1]}", "charwise_reads": len(used)})
+                    if unit == "count":
+                        n_count += 1
+                        continue
+                    r.add(Finding("R-CHAR-UNITS", fn.qual, f"bytes:{leaf}=={b[1]}",
+                                  f"`{subject}` is read char by char under the test `{leaf} {'==' if opn == 'Eq' else '!='} "
+                                  f"{b[1]}`, which counts bytes: a single non-ASCII character (2-4 bytes) takes the other "
+                                  f"branch", fn.file, used[0].line))
+    r.floor("exact size tests guarding char-wise reads", n_sites, 1)
+    r.analysed = {"sites": n_sites, "char_counted": n_count}
+    return r
